@@ -421,6 +421,8 @@ func PutInsertStatement(stmt *InsertStatement) {
 	stmt.TableName = ""
 
 	// Return to pool
+	// Reset every remaining field: nothing of this node may reach the next user of the pool
+	*stmt = InsertStatement{Columns: stmt.Columns, Values: stmt.Values}
 	insertStmtPool.Put(stmt)
 }
 
@@ -450,6 +452,8 @@ func PutUpdateStatement(stmt *UpdateStatement) {
 	stmt.TableName = ""
 
 	// Return to pool
+	// Reset every remaining field: nothing of this node may reach the next user of the pool
+	*stmt = UpdateStatement{Assignments: stmt.Assignments}
 	updateStmtPool.Put(stmt)
 }
 
@@ -472,6 +476,8 @@ func PutDeleteStatement(stmt *DeleteStatement) {
 	stmt.TableName = ""
 
 	// Return to pool
+	// Reset every remaining field: nothing of this node may reach the next user of the pool
+	*stmt = DeleteStatement{}
 	deleteStmtPool.Put(stmt)
 }
 
@@ -561,6 +567,8 @@ func PutSelectStatement(stmt *SelectStatement) {
 	stmt.For = nil
 
 	// Return to pool
+	// Reset every remaining field: nothing of this node may reach the next user of the pool
+	*stmt = SelectStatement{Columns: stmt.Columns, OrderBy: stmt.OrderBy}
 	selectStmtPool.Put(stmt)
 }
 
@@ -575,6 +583,8 @@ func PutIdentifier(ident *Identifier) {
 		return
 	}
 	ident.Name = ""
+	// Reset every remaining field: nothing of this node may reach the next user of the pool
+	*ident = Identifier{}
 	identifierPool.Put(ident)
 }
 
@@ -593,6 +603,8 @@ func PutBinaryExpression(expr *BinaryExpression) {
 	expr.Left = nil
 	expr.Right = nil
 	expr.Operator = ""
+	// Reset every remaining field: nothing of this node may reach the next user of the pool
+	*expr = BinaryExpression{}
 	binaryExprPool.Put(expr)
 }
 
@@ -730,6 +742,8 @@ func PutExpression(expr Expression) {
 		switch e := current.(type) {
 		case *Identifier:
 			e.Name = ""
+			// Reset every remaining field: nothing of this node may reach the next user of the pool
+			*e = Identifier{}
 			identifierPool.Put(e)
 
 		case *BinaryExpression:
@@ -742,6 +756,8 @@ func PutExpression(expr Expression) {
 			e.Left = nil
 			e.Right = nil
 			e.Operator = ""
+			// Reset every remaining field: nothing of this node may reach the next user of the pool
+			*e = BinaryExpression{}
 			binaryExprPool.Put(e)
 
 		case *LiteralValue:
@@ -761,6 +777,8 @@ func PutExpression(expr Expression) {
 			e.Over = nil
 			e.Distinct = false
 			e.Filter = nil
+			// Reset every remaining field: nothing of this node may reach the next user of the pool
+			*e = FunctionCall{Arguments: e.Arguments}
 			functionCallPool.Put(e)
 
 		case *CaseExpression:
@@ -990,6 +1008,8 @@ func PutFunctionCall(fc *FunctionCall) {
 	fc.Over = nil
 	fc.Distinct = false
 	fc.Filter = nil
+	// Reset every remaining field: nothing of this node may reach the next user of the pool
+	*fc = FunctionCall{Arguments: fc.Arguments}
 	functionCallPool.Put(fc)
 }
 
